@@ -166,7 +166,7 @@ def gen_round(rng, chk):
 def gen_reject(rng, chk):
     kind = rng.choice(["othertype", "noref-temp", "noref-money",
                        "noref-money-two-currencies", "noref-user-unit",
-                       "subclass-quantum"])
+                       "subclass-quantum", "not-a-quantity"])
     zero = rng.random() < 0.35
     pre = []
     if kind == "othertype":
@@ -187,6 +187,11 @@ def gen_reject(rng, chk):
                         ["m", MON, "register_currency", [["s", "EUR"]]]]]
         b = ["c", MON, [num(F(5, 100)),
                         ["m", MON, "register_currency", [["s", "USD"]]]]]
+    elif kind == "not-a-quantity":
+        # a quantum that is no quantity at all is "of another type" too
+        a = Q(num(F(0) if zero else F(215, 10)), rng.choice(["m", "kg", "s"]))
+        b = rng.choice([["i", 5], ["D", "0.5"], U("m"), ["s", "1 m"],
+                        ["none"], ["fl", (0.25).hex()]])
     elif kind == "subclass-quantum":
         # a subclass with a reference unit of its own is another type, in
         # both directions (an instance of it IS an instance of the parent)
@@ -231,7 +236,9 @@ def gen_reject(rng, chk):
         if zero:
             chk.count("reject|zero amount")
         r = obs.get("r")
-        if obs.get("q", {}).get("k") != "Q" or obs.get("g", {}).get("k") != "Q":
+        if obs.get("q", {}).get("k") != "Q" or (
+                kind != "not-a-quantity" and
+                obs.get("g", {}).get("k") != "Q"):
             chk.violation("constructing operands failed",
                           dict(info=info, obs=obs, steps=steps), "construct")
         elif not is_exc(r, "TypeError"):
@@ -263,6 +270,7 @@ def run(chk, R, tier, seed):
     chk.require("reject|noref-money-two-currencies")
     chk.require("reject|noref-user-unit")
     chk.require("reject|subclass-quantum")
+    chk.require("reject|not-a-quantity")
     chk.extra["rounding_model_selfcheck_cases"] = RM.SELFCHECK_CASES
     for _ in range(rounds):
         cases = []
